@@ -60,6 +60,26 @@ CHECKS = {
    text="cnf_is_equicountable, cnf_models_project_to_models, every_model_has_exactly_one_extension, header_declares_what_the_cnf_contains for every well-formed array satisfying the driver-checked side conditions (q cnfok). Tie: the clause list and num_variables of Cnf::from(&Ddnnf) are compared literally with the Lean toCnf on the exported array; an independent DPLL counter counts the exported CNF over its declared variables and checks that the projection onto the features hits every model exactly once; printed header vs content; c2d inputs with true nodes included (the panic on constants was repaired in 9dec93a).",
    note="Side conditions CnfOK (leaf literals in 1..n, some Tseitin variable introduced, root represented by the last variable) are decided per exported array; models with a single literal (n < 2) are outside the property. HashMap-based operation cache is modelled as an association list (lookup only, no iteration).",
    ref="DESIGN.md §8 C19"),
+ "C07": dict(
+   technique="Lean 4 theorems over every behaviour of the random source (sampler re-executed along recorded decisions): k samples, each a model containing A, None iff unsat, routing weights multiply to 1/count(A) + replay of every real run's decisions through the model + chi-square test (labelled a test)",
+   text="samples_are_k_models_containing_A, none_iff_unsat hold for every well-formed array, every in-range assumption list, every amount and EVERY list of random decisions (or-node splits, shuffles) the sampler could draw; same_decisions_same_samples (answer is a function of array, request and decisions); routing_weights_are_uniform: the or-node routing weights temp(child)/temp(node) multiply to exactly 1/count(A) for every model containing A (exact rationals). Tie: the hook records the decisions of each real run of uniform_random_sampling; the Lean model must accept every decision (range checks) and reproduce the sample list exactly; length/validity/None/repeatability/stream `random` vs truth-table oracle.",
+   note="Partial for the distributional clause: that rand_distr's Binomial / WeightedAliasIndex and SliceRandom::shuffle realise the multinomial split / uniform shuffles, that Pcg32 is a good generator, and f64 rounding of the weights are runtime behaviour outside any theorem here; they are checked by the chi-square statistic the quantifier prescribes (<=256 models, >=40 000 draws, false-alarm < 1e-12), labelled a test. Root = True (n=0) excluded (hroot).",
+   ref="DESIGN.md §8 C07"),
+ "C08": dict(
+   technique="Lean 4 theorems: atomic-set report (grouping by count, prefilter, confirmation, union-find, plain/cross clean-up) = classes of always-equal literals with >=2 members, each once, sorted; prefilter samples admissible for every behaviour of the RNG + correspondence with brute force",
+   text="plain_report_is_exactly_the_classes / cross_report_is_exactly_the_classes: for every well-formed array, in-range A, candidate list and every admissible sample list, S is reported iff S is the sorted list of a class (>=2 members) of candidates (signed literals in cross mode) with equal value in every model containing A; plain_/cross_report_lists_each_class_once; cross_report_once_up_to_negation; prefilter_samples_are_admissible (whatever the RNG does the 512 samples are models containing A, by C07); report_independent_of_samples. Tie: get_atomic_sets (library, stream atomic / atomic-cross) vs the Lean atomicSets on the exported array (identical report) and vs brute-force classes from the truth table, for satisfiable A of length 0..3 x candidate subsets x {plain, cross}.",
+   note="Cross mode needs satisfiable A (hsat), as the property states. Union-find is abstracted to a list of classes (tied by identical reports); i16 conversion of features (n < 32768) not modelled; the hash-map grouping order is canonicalised by the final sort in both code and model.",
+   ref="DESIGN.md §8 C08"),
+ "C10": dict(
+   technique="Lean 4 theorems: lexer(writer(node)) round trip, parse(write(nodes)) = nodes (constants normalised), DFS flattening preserves WF/denotation/count => save+reload yields an equivalent well-formed circuit answering count/sat/core/per-feature/model-set queries identically + byte comparison of the real writer with the model writer and node-by-node comparison of the real reload with the model's parse+flatten",
+   text="every_written_line_lexes_back, written_file_parses_back, saved_file_is_wellformed_and_equivalent (the file is a smooth decomposable deterministic circuit over n features with the same denotation), reload_is_wellformed_and_equivalent, reload_answers_like_the_original (count under every assumption list, per-feature table, model set), reload_sat_and_core_like_the_original for every well-formed array. Tie: write_ddnnf_to_file (library, stream save-ddnnf) output compared with the model writer's text, truth table of the file text vs original, real reload compared node by node with model parse+flatten, reloaded array WF by the driver, battery incl. atomic sets answered identically.",
+   note="Modelled, not verified: decimal printing/parsing of integers (Rust Display / nom digit parsers) is a token-level abstraction (`Tk.num`); file system. Atomic-set equality after reload follows from C08 (report is determined by the model set) and is compared by the harness rather than restated as a theorem.",
+   ref="DESIGN.md §8 C10"),
+ "C18": dict(
+   technique="Lean 4 theorem: the model of build_d4_ddnnf with the HashSet iteration order as an explicit parameter yields the same node array for every order (repaired code sorts), kernel-checked witness for the unsorted variant + exact comparison of the real loader's array with the model loader, repeated loads in one process and in separate processes",
+   text="loaded_array_independent_of_hash_order, seeded_samples_independent_of_hash_order (same file, n, A, k and random decisions => same sample list for every iteration order), samples_are_a_function_of_array_and_decisions, unsorted_iteration_is_order_dependent (witness of the repaired defect 9ffd425), loaded_array_is_topological. Tie: every d4/c2d input is loaded by the real code and by the Lean loader model and the node arrays are compared exactly (this pins petgraph neighbour order, DfsPostOrder and the smoothing order); each model loaded 8/20 times in one process (fresh hash keys) must export identical arrays and identical seeded samples; CLI urs -s and stream random s in separate processes.",
+   note="Modelled, not verified: the claim that balance_or_children's missing-variable set is the ONLY hash-order-observing iteration in the loader is by reading, and is tied by the exact array comparison (any other order dependence shows as a disagreement between repeated loads or with the model); Pcg32 determinism for a fixed seed is trusted; address layout and thread timing do not enter the model (single-threaded load, no pointer-keyed containers).",
+   ref="DESIGN.md §8 C18"),
  "C01": dict(
    technique="Lean 4 theorem (count = number of satisfying assignments for every well-formed node array) + per-input validated loader correspondence",
    text="Theorems count_is_model_count / same_function_same_count hold for every well-formed node array of any size (induction over the array, kernel-checked). The loader is tied per input: the Lean driver evaluates the decidable WF predicate and the truth table on the node array the real loader exported and compares with the truth table of the input text; the real code is compared with an independent oracle.",
